@@ -326,6 +326,15 @@ func (r *Run) runPath(w *Worker, it workItem) (more [][]uint64) {
 	var panicModel []drawVal
 	var passModel *sample
 	site := ""
+	var writeModel []drawVal
+	for _, e := range m.events {
+		if e.kind == "write" && writeModel == nil && kind != "gopanic" {
+			if mod, res := m.currentModel(); res == "sat" {
+				writeModel = mod
+			}
+			break
+		}
+	}
 	switch kind {
 	case "gopanic":
 		site = m.lastSite
@@ -414,7 +423,7 @@ func (r *Run) runPath(w *Worker, it workItem) (more [][]uint64) {
 		case "assert":
 			addFinding("assert", e.label, e.detail, e.model, e.realised)
 		case "write":
-			addFinding("write", e.label+" in "+e.detail, e.detail, nil)
+			addFinding("write", e.label+" in "+e.detail, e.detail, writeModel)
 		}
 	}
 	switch kind {
